@@ -1,6 +1,7 @@
 package vc
 
 import (
+	"fmt"
 	"go/token"
 	"go/types"
 	"strings"
@@ -16,6 +17,21 @@ var noEffectPkgs = []string{
 	"github.com/ChainSafe/gossamer/internal/metrics",
 	"log",
 }
+
+// pureFuncs: library functions assumed to only read the memory reachable from their arguments.
+var pureFuncs = map[string]bool{
+	"golang.org/x/crypto/blake2b.Sum256": true, "golang.org/x/crypto/blake2b.Sum512": true,
+	"crypto/aes.NewCipher": true, "crypto/cipher.NewGCM": true,
+	"bytes.Compare": true, "bytes.Contains": true, "bytes.Index": true, "bytes.IndexByte": true,
+	"strings.HasPrefix": true, "strings.HasSuffix": true, "strings.Contains": true, "strings.TrimPrefix": true,
+	"encoding/hex.EncodeToString": true, "(*math/big.Int).Cmp": true, "(*math/big.Int).Sign": true,
+	"(*math/big.Int).Bytes": true, "(*math/big.Int).Uint64": true, "(*math/big.Int).IsUint64": true, "(*math/big.Int).Int64": true,
+	"(*math/big.Int).String": true, "(*math/big.Int).BitLen": true, "math/big.NewInt": true,
+	"time.Now": true, "(time.Time).Before": true, "(time.Time).After": true, "(time.Time).Equal": true, "(time.Time).Sub": true,
+	"(time.Time).Unix": true, "(time.Time).UnixNano": true, "time.Since": true, "(time.Time).Add": true,
+}
+
+var ctorFuncs = map[string]bool{"crypto/aes.NewCipher": true, "crypto/cipher.NewGCM": true}
 
 func isNoEffect(fn *ssa.Function) bool {
 	p := ""
@@ -92,6 +108,63 @@ func DefaultModels() map[string]Model {
 		r := And(BVCmp("bvule", pp.ln, sp.ln), x.bytesEqual(st, pre, p))
 		return retOne(st, boolV(x.define(st, "hasprefix", r)))
 	}
+	// ---- crypto/cipher.AEAD (GCM with the standard 12-byte nonce and 16-byte tag): assumed contract ----
+	m["(crypto/cipher.AEAD).NonceSize"] = func(x *Exec, fr *Frame, st *State, args []Value, pos token.Pos) []Outcome {
+		x.c.note("assumed: cipher.AEAD.NonceSize() == 12, Overhead() == 16 (standard GCM)")
+		return retOne(st, scalar(tInt, BVLit64(12, 64)))
+	}
+	m["(crypto/cipher.AEAD).Overhead"] = func(x *Exec, fr *Frame, st *State, args []Value, pos token.Pos) []Outcome {
+		return retOne(st, scalar(tInt, BVLit64(16, 64)))
+	}
+	// Seal(dst, nonce, plaintext, ad) appends len(plaintext)+16 bytes to dst; Open(dst, nonce, ct, ad)
+	// appends len(ct)-16 bytes to dst or fails. Both read their other arguments only.
+	aeadAppend := func(name string, outLen func(in *Term) (*Term, *Term)) Model {
+		return func(x *Exec, fr *Frame, st *State, args []Value, pos token.Pos) []Outcome {
+			x.c.note("assumed: cipher.AEAD.%s appends its output to dst (in place when dst has spare capacity) and only reads nonce, input and additional data; the cryptographic relation between Seal and Open is not modelled", name)
+			dst, in := args[1], args[3]
+			dp := sl(dst)
+			n, okc := outLen(sl(in).ln)
+			byteT := types.Typ[types.Uint8]
+			bs := types.NewSlice(byteT)
+			newLen := BVBin("bvadd", dp.ln, n)
+			fits := BVCmp("bvule", newLen, dp.cp)
+			nref := x.newRef(st, "aead")
+			base := x.define(st, "aead_base", Ite(fits, dp.base, nref))
+			ncap := x.c.Fresh("aead_cap", idxSort)
+			st.assume(BVCmp("bvuge", ncap, newLen))
+			st.assume(BVCmp("bvule", ncap, BVLit64(1<<41, 64)))
+			c := x.comp(st, "arr:uint8", byteT, 0)
+			// output bytes are unconstrained; the prefix (old dst contents) is preserved
+			na := x.c.Fresh("aead_out", SArr(idxSort, SBV(8)))
+			i := Var("i!q", idxSort)
+			old := Select(c, dp.base)
+			st.assume(Quant("forall", []*Term{i}, Implies(Not(BVCmp("bvult", BVBin("bvsub", i, BVBin("bvadd", dp.off, dp.ln)), n)), Eq(Select(na, i), Select(old, i))), Select(na, i)))
+			res := Value{T: bs, L: []*Term{base, dp.off, x.define(st, "aead_len", newLen), x.define(st, "aead_capv", Ite(fits, dp.cp, ncap))}}
+			errT := types.Universe.Lookup("error").Type()
+			if name == "Open" {
+				// two outcomes folded into one: err != nil (result nil) or success
+				fail := x.c.Fresh("aead_open_fails", SBool)
+				st.assume(Implies(Not(okc), fail))
+				ev := x.freshError(st, errT)
+				// only on success, and only if at least one byte is produced, is anything written
+				wbase := x.define(st, "aead_wbase", Ite(Or(fail, Eq(n, BVLit64(0, 64))), nref, base))
+				x.setComp(st, "arr:uint8", byteT, 0, Store(c, wbase, na))
+				z := x.zero(bs)
+				out := Value{T: bs}
+				for k := range res.L {
+					out.L = append(out.L, Ite(fail, z.L[k], res.L[k]))
+				}
+				e := Value{T: errT, L: []*Term{Ite(fail, ev.L[0], IntLit(0)), Ite(fail, ev.L[1], IntLit(0))}}
+				return []Outcome{{St: st, Kind: OutReturn, Rets: []Value{out, e}}}
+			}
+			x.setComp(st, "arr:uint8", byteT, 0, Store(c, base, na))
+			return retOne(st, res)
+		}
+	}
+	m["(crypto/cipher.AEAD).Seal"] = aeadAppend("Seal", func(in *Term) (*Term, *Term) { return BVBin("bvadd", in, BVLit64(16, 64)), True })
+	m["(crypto/cipher.AEAD).Open"] = aeadAppend("Open", func(in *Term) (*Term, *Term) {
+		return BVBin("bvsub", in, BVLit64(16, 64)), BVCmp("bvuge", in, BVLit64(16, 64))
+	})
 	return m
 }
 
@@ -121,7 +194,67 @@ func itoa(i int) string {
 	return s
 }
 
+// logCall records the arguments of a call in the ghost call log; a ghost counter per function tells
+// specifications whether (and how often) the function was called.
+func (x *Exec) logCall(st *State, name string, args []Value) {
+	if st.calls == nil {
+		st.calls = map[string][]Value{}
+	}
+	st.calls[name] = args
+	k := "ncalls:" + name
+	cur, ok := st.ghost[k]
+	if !ok {
+		cur = BVLit64(0, 64)
+	}
+	st.ghost[k] = BVBin("bvadd", cur, BVLit64(1, 64))
+	if st.written != nil {
+		if st.written.ghost == nil {
+			st.written.ghost = map[string]bool{}
+		}
+		st.written.ghost[k] = true
+		st.written.ghost["call:"+name] = true
+	}
+}
+
 func registerSpecBuiltins(x *Exec) {
+	// lastarg("pkg.Func", i): i-th argument of the most recent call to the function (receiver is 0)
+	x.specBuiltins["lastarg"] = func(sc *specScope, n *ECall) Value {
+		lit, ok := n.Args[0].(*ELit)
+		il, ok2 := n.Args[1].(*ELit)
+		if !ok || !ok2 {
+			unsup("spec: lastarg(\"func\", index)")
+		}
+		if sc.assumeMode {
+			unsup("spec: lastarg: no recorded call to %s in the caller's scope", lit.Text)
+		}
+		as, ok := sc.st.calls[lit.Text]
+		i := 0
+		fmt.Sscanf(il.Text, "%d", &i)
+		if !ok || i >= len(as) {
+			unsup("spec: lastarg: no recorded call to %s on this path", lit.Text)
+		}
+		return as[i]
+	}
+	// ncalls("pkg.Func"): number of calls so far
+	x.specBuiltins["ncalls"] = func(sc *specScope, n *ECall) Value {
+		lit, ok := n.Args[0].(*ELit)
+		if !ok {
+			unsup("spec: ncalls(\"func\")")
+		}
+		if sc.assumeMode {
+			unsup("spec: ncalls: no recorded call to %s in the caller's scope", lit.Text)
+		}
+		if t, ok := sc.st.ghost["ncalls:"+lit.Text]; ok {
+			return scalar(tInt, t)
+		}
+		return scalar(tInt, BVLit64(0, 64))
+	}
+	// sameSlice(a, b): identical slice headers (same backing array, offset and length)
+	x.specBuiltins["sameSlice"] = func(sc *specScope, n *ECall) Value {
+		a := x.evalSpec0(sc, n.Args[0], nil)
+		b := x.evalSpec0(sc, n.Args[1], nil)
+		return boolV(And(Eq(a.L[0], b.L[0]), Eq(a.L[1], b.L[1]), Eq(a.L[2], b.L[2])))
+	}
 	x.specBuiltins["bytesEq"] = func(sc *specScope, n *ECall) Value {
 		a := x.evalSpec0(sc, n.Args[0], nil)
 		b := x.evalSpec0(sc, n.Args[1], nil)
